@@ -59,8 +59,9 @@ class WsConnA:
 
     # ASGI callables for this connection
     async def receive(self):
-        if self.disconnect_delivered:
+        if self.disconnect_delivered or self.server_closed:
             # uvicorn keeps answering websocket.disconnect
+            self.disconnect_delivered = True
             return {'type': 'websocket.disconnect', 'code': 1006}
         if self.connect_delivered and self.first_read_clk is None:
             self.first_read_clk = self.sim.tick()
@@ -117,10 +118,10 @@ class WsConnA:
             self.server_closed = True
             self.close_reason = ev.get('reason')
             self.close_clk = self.sim.tick()
-            if self.polite and not self.vanished and not self.client_closed:
-                self.client_closed = True
-                self.q.put_nowait({'type': 'websocket.disconnect',
-                                   'code': 1000})
+            # after the application closed the socket the ASGI server
+            # answers every receive() with websocket.disconnect
+            self.q.put_nowait({'type': 'websocket.disconnect',
+                               'code': 1000})
         else:
             self.proto.append('event %r on a websocket scope' % (tp,))
 
